@@ -7,6 +7,7 @@ from .. import secops
 
 ID = "C13"
 MODULE = "LasioProofs.Props.C13"
+EXTRA_MODULES = ["LasioProofs.Props.C13File"]
 RULE = ("(a) operation sequences over SectionItems (exhaustive to a length bound, then random to length 9) x mnemonic_transforms, real class vs "
         "Lean model after every step, and the C13 oracle after every step: session names pairwise distinct, each resolves to its own item by key "
         "and attribute, blank -> UNKNOWN, :1..:n numbering in order after an insertion, unique names untouched, originals = plain list model; "
@@ -300,5 +301,12 @@ LEVEL_TEXT = ("Machine-checked Lean 4 theorems over ALL operation histories (ind
               "insertion (C13_numbering), unique names untouched, an inductive invariant (C13_inv_run) that yields pairwise-distinct session names "
               "under NoSuffixClash (C13_distinct) and resolution of every session name to its own item (C13_resolve); counter-example theorem for the "
               "hypothesis. Tie: per-step differential comparison with the real class + oracle; file round trips through the real reader/writer.")
-LEVEL_NOTE = ("Known finding: an original mnemonic of the form X:<digits> next to >= 2 items named X collides with a generated suffix (R10a); carved "
+LEVEL_NOTE = ("FILE LEVEL (Props/C13File.lean): the reader builds its sections like SectionItems.append (C13_read_is_sectionItems, "
+              "C13_read_is_run: every theorem about Section.run transfers to sections obtained by reading; C13_read_distinct, C13_read_resolve, "
+              "C13_read_names); C13_file_roundtrip: the header written for a conformant object — duplicated AND blank mnemonics included "
+              "(BlankConf: no period in the unit and in the field before the colon) — reads back with the same originals in order, session names "
+              "= those of a section built by appends from these originals, pairwise distinct, each resolving to its own item; "
+              "C13_file_same_names_object: literally the object's own names when the object was itself built by appends (every section read built); "
+              "counter-examples: stale suffix, X:1 clash, blank mnemonic with a period before the colon, white-space-only mnemonic, changed "
+              "mnemonic_transforms. Known finding: an original mnemonic of the form X:<digits> next to >= 2 items named X collides with a generated suffix (R10a); carved "
               "out by the NoSuffixClash hypothesis = the classifier. LASFile[...] and file round trip are covered by oracle + correspondence only.")
